@@ -639,6 +639,13 @@ class Server(BaseComponent):
         except OSError as e:
             if e.args[0] not in (EINTR, EWOULDBLOCK, ENOBUFS):
                 self.fire(error(sock, e))
+                # The peer may have sent more than has been read so far
+                # before it went away: that is delivered, then we close.
+                with contextlib.suppress(OSError):
+                    received = sock.recv(self._bufsize)
+                    while received:
+                        self.fire(read(sock, received)).notify = True
+                        received = sock.recv(self._bufsize)
                 self._close(sock)
             else:
                 self._buffers[sock].appendleft(data)
